@@ -220,6 +220,33 @@ type ccH struct {
 	ctx context.Context
 	l   *queryLog
 	out *vfOut
+	// sameAs, when set, is a line that must decode to the same entry as the
+	// next line given to [line] (the same entry written by another encoder).
+	sameAs string
+}
+
+// ccOldEncoder rewrites a line of the current encoder the way the encoder
+// before the netip migration wrote it: ResultRule.IP was a net.IP with
+// omitempty, so a rule without an address had no "IP" member at all (the
+// comment "It is nil unless ..." on the field still says so).  ok is false
+// when a rule object would become empty: no caller ever built a rule without
+// text, address and list ID.
+func ccOldEncoder(line string) (old string, ok bool) {
+	i := strings.Index(line, `"Result":{`)
+	if i < 0 {
+		return "", false
+	}
+	head, tail := line[:i], line[i:]
+	if strings.Contains(tail, `{"IP":""}`) {
+		return "", false
+	}
+	n := strings.Count(tail, `"IP":""`)
+	tail = strings.ReplaceAll(tail, `,"IP":""`, "")
+	tail = strings.ReplaceAll(tail, `"IP":"",`, "")
+	if n == 0 || strings.Contains(tail, `"IP":""`) {
+		return "", false
+	}
+	return head + tail, true
 }
 
 func ccNew(t *testing.T, out *vfOut) *ccH {
@@ -333,6 +360,19 @@ func (h *ccH) line(kind string, src *logEntry, line string, qs []ccQ, classes ma
 		cls["decode-panic"] = true
 	}
 	dp := ccProject(dec, false)
+	if h.sameAs != "" {
+		other := &logEntry{}
+		func() {
+			defer func() { _ = recover() }()
+			l.decodeLogEntry(h.ctx, other, h.sameAs)
+		}()
+		if panicked {
+			fail("codec-decode-panic", "decodeLogEntry panicked on a line of the older encoder: %s", line)
+		} else if op := ccProject(other, false); op.coq() != dp.coq() {
+			fail("codec-old-encoder", "the line of the older encoder decodes to another entry than the current one: %s vs %s", line, h.sameAs)
+		}
+		h.sameAs = ""
+	}
 	// oracles: what Go's parsers accept among the strings of the line
 	var goodT, goodIP, goodAddr, goodB64 []string
 	for _, s := range ccStrings(line) {
@@ -606,6 +646,8 @@ var ccHandLines = []string{
 	`{"QH":"before"} 5 {"QT":"after"}`,
 	`{"Result":{"IsFiltered":true} 5 {"Reason":3}},"QT":"A"}`,
 	// rules
+	// rules as the encoder before the netip migration wrote them (no "IP" member for a rule without an address)
+	`{"T":"2021-03-01T10:00:00Z","QH":"old.example","QT":"A","QC":"IN","CP":"","IP":"1.2.3.4","Result":{"IsFiltered":true,"Reason":3,"Rules":[{"Text":"||old.example^","FilterListID":1},{"Text":"0.0.0.0 old.example","IP":"0.0.0.0","FilterListID":2},{"FilterListID":-4,"IP":"1.1.1.1"}]},"Elapsed":5}`,
 	`{"Result":{"Rules":[{},{"Text":"x"}]}}`,
 	`{"Result":{"Rules":[{"Text":"x"},{},{},{"FilterListID":3}]}}`,
 	`{"Result":{"Rules":[{"Foo":"Text","Text":"t1","IP":"1.2.3.4","FilterListID":-2},{"IP":"nope","Text":5,"FilterListID":"7"},{"FilterListID":1e2}],"Reason":3}}`,
@@ -690,6 +732,13 @@ func TestVerifC07Codec(t *testing.T) {
 	for i := 0; i < n; i++ {
 		r := rnd.Fork(uint64(i))
 		e, cls := ccEntry(r)
-		h.line("generated", e, ccMarshal(t, e), ccTerms(r, e.QHost), cls)
+		line := ccMarshal(t, e)
+		h.line("generated", e, line, ccTerms(r, e.QHost), cls)
+		// the same entry as the encoder before the netip migration wrote it
+		// (rules without an "IP" member)
+		if old, ok := ccOldEncoder(line); ok && len(e.Result.Rules) > 0 && r.Chance(1, 3) {
+			h.sameAs = line
+			h.line("old-encoder", nil, old, ccTerms(r, e.QHost), map[string]bool{"legacy-rule-without-ip": true})
+		}
 	}
 }
